@@ -418,6 +418,8 @@ pub struct Local {
     short_writes: u64,
     sink_failures: u64,
     builder_newlines: u64,
+    builder_runs: u64,
+    builder_deep: u64,
 }
 
 fn count_calls(calls: &[Call], loc: &mut Local) {
@@ -670,9 +672,21 @@ fn check_builder_indented(calls: &[Call], loc: &mut Local) -> Result<(), String>
     if elems.is_empty() {
         return Ok(());
     }
-    for indent in [(b' ', 2usize), (b'\t', 1usize)] {
+    // now and then deep inside a document, where the indent in front of the attributes crosses the
+    // 128 bytes the writer's indent cache starts with
+    loc.builder_runs += 1;
+    let deep = loc.builder_runs % 8 == 0;
+    for indent in [(b' ', 2usize), (b'\t', 1usize), (b' ', 4usize)] {
+        let depth = if deep { 128 / indent.1 - 2 + (loc.builder_runs as usize / 8) % 4 } else { 0 };
+        if deep {
+            loc.builder_deep += 1;
+        }
         let mut w = Writer::new_with_indent(Vec::new(), indent.0, indent.1);
         let mut want: Vec<M> = Vec::new();
+        for _ in 0..depth {
+            w.write_event(Event::Start(BytesStart::new("d"))).map_err(io_err)?;
+            want.push(M::Start("d".into(), vec![]));
+        }
         for (n, c) in elems.iter().enumerate() {
             if let Call::Elem { name, attrs, content, .. } = c {
                 let mut ew = w.create_element(name.as_str());
@@ -712,10 +726,17 @@ fn check_builder_indented(calls: &[Call], loc: &mut Local) -> Result<(), String>
                 }
             }
         }
+        for _ in 0..depth {
+            w.write_event(Event::End(BytesEnd::new("d"))).map_err(io_err)?;
+            want.push(M::End("d".into()));
+        }
         let bytes = w.into_inner();
         // the async element builder on the same indenting writer must produce the same bytes
         {
             let mut wa = Writer::new_with_indent(Vec::new(), indent.0, indent.1);
+            for _ in 0..depth {
+                wa.write_event(Event::Start(BytesStart::new("d"))).map_err(io_err)?;
+            }
             for (n, c) in elems.iter().enumerate() {
                 if let Call::Elem { name, attrs, content, .. } = c {
                     let mut ew = wa.create_element(name.as_str());
@@ -733,6 +754,9 @@ fn check_builder_indented(calls: &[Call], loc: &mut Local) -> Result<(), String>
                         Content::Inner(_) => unreachable!(),
                     }
                 }
+            }
+            for _ in 0..depth {
+                wa.write_event(Event::End(BytesEnd::new("d"))).map_err(io_err)?;
             }
             let ba = wa.into_inner();
             if ba != bytes {
@@ -1007,6 +1031,7 @@ fn flush(ctx: &mut Ctx, loc: &Local) {
     ctx.add("sink_short_write_calls", loc.short_writes);
     ctx.add("sink_failures_survived", loc.sink_failures);
     ctx.add("builder_indented_with_new_line", loc.builder_newlines);
+    ctx.add("builder_indented_below_62_to_129_open_elements", loc.builder_deep);
 }
 
 fn replay(case: &Value, _ctx: &mut Ctx) -> Option<String> {
